@@ -324,6 +324,35 @@ def main():
                '  decide +kernel', '', 'end Gen', '']
         write_if_changed(os.path.join(GEN, 'Checks', mn + '.lean'), '\n'.join(chk))
         imports.append('import Gen.Checks.' + mn)
+    # C02: walker hypotheses (Spec/WalkerGen.lean) per indexed map; expected value from the known-findings file
+    indexed = sorted(set(e[4] for e in index) | {'x12.control.00401.xml', 'x12.control.00501.xml'})
+    c02_false = {}
+    kpath = os.path.join(VERIF, 'known_findings.txt')
+    if os.path.exists(kpath):
+        for ln in open(kpath):
+            mm = re.match(r'finding:\s+property=C02\s+key=map:([^:\s]+):(wfmap|unambiguous)\b', ln.strip())
+            if mm:
+                c02_false.setdefault(mm.group(1), set()).add(mm.group(2))
+    walk_thms = []
+    for f in indexed:
+        if f not in maps:
+            continue
+        mn = modname(f)
+        wf = 'false' if 'wfmap' in c02_false.get(f, ()) else 'true'
+        un = 'false' if 'unambiguous' in c02_false.get(f, ()) else 'true'
+        chk = ['/- generated by tools/xlate.py -- do not edit -/', 'import Gen.Tables', 'import Gen.Maps.' + mn,
+               'import Pyx12Verif.Spec.WalkerGen',
+               'open Pyx12Verif.MapSkel Pyx12Verif.Walker Pyx12Verif.WalkerGen', 'set_option maxRecDepth 1000000', 'namespace Gen', '',
+               '/-- hypotheses of `walk_accepts_generated` for %s -/' % f,
+               'theorem %s_wfmap : WFMap %s.children = %s := by decide +kernel' % (mn, mn, wf),
+               'theorem %s_unambiguous : Unambiguous ⟨ENT, HL, CTX⟩ %s.children = %s := by decide +kernel' % (mn, mn, un),
+               '', 'end Gen', '']
+        write_if_changed(os.path.join(GEN, 'Walk', mn + '.lean'), '\n'.join(chk))
+        imports.append('import Gen.Walk.' + mn)
+        walk_thms += ['Gen.%s_wfmap' % mn, 'Gen.%s_unambiguous' % mn]
+    side['walk_theorems'] = walk_thms
+    side['walk_expected_false'] = {k: sorted(v) for k, v in c02_false.items()}
+    write_if_changed(os.path.join(GEN, 'AuditC02.lean'), 'import Gen\n' + '\n'.join('#print axioms ' + t for t in walk_thms) + '\n')
     # index obligations
     idx_known = [int(x[1]) for x in known.get('maps.xml', []) if x[0] == 'indexkey']
     chk = ['/- generated by tools/xlate.py -- do not edit -/', 'import Pyx12Verif.Model.MapSkel', 'import Gen.Tables',
@@ -337,8 +366,10 @@ def main():
     write_if_changed(os.path.join(GEN, 'AuditC16.lean'), '\n'.join(audit) + '\n')
     # remove stale generated modules
     keep = {modname(f) + '.lean' for f in maps}
-    for sub in ('Maps', 'Checks'):
+    for sub in ('Maps', 'Checks', 'Walk'):
         d = os.path.join(GEN, sub)
+        if not os.path.isdir(d):
+            continue
         for fn in os.listdir(d):
             if fn.endswith('.lean') and fn not in keep and fn != 'Index.lean':
                 os.remove(os.path.join(d, fn))
